@@ -54,7 +54,10 @@ def decode_case(raw):
         s = gen.decode_fs((0,) + tuple(t[1:]), bs, nd, odd=(t[0] % 3 == 0), links=False)
         s["size"] = max(s["size"], 1)
         base_steps.append(s)
-    dz = [{"src": a, "disk": b % nd, "same_dir": c % 2 == 0, "kind": ["decoy", "decoy", "copy", "copy_of_copy"][d % 4], "rename_dir": "dd%d" % (d % 3)} for a, b, c, d in decoys]
+    # delete_src: the source is removed after the new file exists (a move, or a decoy standing in for a moved file); with
+    # same_disk the new file tends to land on the positions the source frees
+    dz = [{"src": a % 8, "delete_src": a >= 8, "same_disk": a >= 12, "disk": b % nd, "same_dir": c % 2 == 0, "kind": ["decoy", "decoy", "copy", "copy_of_copy"][d % 4],
+           "rename_dir": "dd%d" % (d % 3)} for a, b, c, d in decoys]
     return {"kind": k, "cfg": cfg, "base": base_steps, "decoys": dz, "mode": ["plain", "prehash", "nocopy", "partial_then_plain"][mode % 4], "seed": seed}
 
 
@@ -103,9 +106,13 @@ def run_sync_decoy(case, ctx, w, classes):
     copy_paths = []
     for k, dz in enumerate(case["decoys"]):
         sdn, sf = files[dz["src"] % len(files)]
+        if not os.path.lexists(w.full(sdn, sf.sub)):
+            continue   # removed by an earlier entry of this case
         src_bytes = w.read_file(sdn, sf.sub)
         src_mtime = w.mtime_ns(sdn, sf.sub)
         tdisk = dz["disk"]
+        if dz.get("same_disk") and sf.mtime_nsec != 0:
+            tdisk = int(sdn[1:]) - 1
         base = os.path.basename(sf.sub)
         if sf.mtime_nsec == 0:
             rel = sf.sub                     # zero sub-second: the whole path must match
@@ -130,6 +137,9 @@ def run_sync_decoy(case, ctx, w, classes):
                     t2 = "d%d" % ((tdisk + 1) % nd + 1)
                     if rel2 and not os.path.lexists(w.full(t2, rel2)) and w.write_file(t2, rel2, src_bytes, mtime_ns=src_mtime):
                         copy_paths.append((t2, rel2))
+        if dz.get("delete_src") and ((tdn, rel) in decoy_paths or (tdn, rel) in copy_paths):
+            os.unlink(w.full(sdn, sf.sub))
+            classes.add("source removed after the %s appeared" % ("decoy" if dz["kind"] == "decoy" else "copy"))
     mode = case["mode"]
     classes.add("mode " + mode)
     par_before = [w.arr.read_parity(l) for l in range(w.arr.cfg["levels"])]
